@@ -41,6 +41,34 @@ func conjuncts(fn *ssa.Function, v ssa.Value, depth int) []fact {
 	return append(out, conjuncts(fn, phi.Edges[idx], depth+1)...)
 }
 
+// disjuncts: what is known when v is known false — for a || b || c every disjunct is false.
+func disjuncts(fn *ssa.Function, v ssa.Value, depth int) []fact {
+	v2, positive := stripNot(v)
+	if depth > 6 {
+		return []fact{{v2, !positive}}
+	}
+	phi, ok := v2.(*ssa.Phi)
+	if !ok || !positive {
+		return []fact{{v2, !positive}}
+	}
+	idx := -1
+	for i, e := range phi.Edges {
+		if b, isC := constBool(e); isC && b {
+			continue
+		}
+		if idx >= 0 {
+			return []fact{{v2, false}} // not an ||-chain
+		}
+		idx = i
+	}
+	if idx < 0 {
+		return []fact{{v2, false}}
+	}
+	pred := phi.Block().Preds[idx]
+	out := factsAt(fn, pred.Instrs[len(pred.Instrs)-1])
+	return append(out, disjuncts(fn, phi.Edges[idx], depth+1)...)
+}
+
 func factList(fs []fact) []string {
 	var o []string
 	for _, f := range fs {
@@ -744,19 +772,34 @@ func checkC04(c *Ctx, r *Report) {
 					callers = append(callers, fnKey(cs.caller))
 				}
 				callers = uniq(callers)
-				r.Check(len(callers) == 1 && callers[0] == "(*"+proxyPkg+".fetcher).dedupFetch$1", "C04.R5", key, c.InstrPos(call), "only reachable from the singleflight closure", "getFromCacheOrFetch is also called from "+strings.Join(callers, ", ")+" (outside the coalescable path)")
+				okOnly := len(callers) == 1 && callers[0] == "(*"+proxyPkg+".fetcher).dedupFetch$1"
+				if !okOnly {
+					// ... or from a helper that only that closure calls
+					for _, root := range li.Fns {
+						if fnKey(root) == "(*"+proxyPkg+".fetcher).dedupFetch$1" && onlyReachedFrom(li, f, root, 0) {
+							okOnly = true
+						}
+					}
+				}
+				r.Check(okOnly, "C04.R5", key, c.InstrPos(call), "only reachable from the singleflight closure", "getFromCacheOrFetch is also called from "+strings.Join(callers, ", ")+" (outside the coalescable path)")
 			case "(*" + proxyPkg + ".fetcher).dedupFetch":
 				fs := factStrs(f, call.(ssa.Instruction))
 				r.Check(hasFact(fs, "clientHd.Range)", false) && hasFact(fs, `$req.Method=="GET"`, true), "C04.R5", key, c.InstrPos(call), "on the coalescable path", "cache lookup in dedupFetch outside the ¬Range ∧ GET path")
 			default:
 				// after a store / revalidation in the same function
 				ok := false
+				// the store / renewal itself, or a helper that does it on every way through (f.extendExpiry(key))
+				isStoreDeep := deepMarker(func(in ssa.Instruction) bool {
+					x, isCall := in.(*ssa.Call)
+					if !isCall {
+						return false
+					}
+					cn := calleeName(x)
+					return cn == "("+cachePkg+".Cache).UpdateMetadata" || cn == "("+cachePkg+".Cache).Cache"
+				}, 0)
 				eachInstr(f, func(in ssa.Instruction) {
-					if x, isCall := in.(*ssa.Call); isCall {
-						cn := calleeName(x)
-						if (cn == "("+cachePkg+".Cache).UpdateMetadata" || cn == "("+cachePkg+".Cache).Cache") && instrDominates(x, call.(ssa.Instruction)) {
-							ok = true
-						}
+					if isStoreDeep(in) && instrDominates(in, call.(ssa.Instruction)) {
+						ok = true
 					}
 				})
 				r.Check(ok, "C04.R5", key, c.InstrPos(call), "directly after a store/revalidation of the same key", "a cache lookup that is neither on the coalescable path nor after a store: non-GET/Range requests could be answered from the store")
